@@ -21,6 +21,7 @@ import (
 	"fmt"
 	"log"
 	"reflect"
+	"sort"
 	"sync"
 	"sync/atomic"
 	"time"
@@ -243,25 +244,26 @@ func (sw *SlidingWindow) Add(data any) {
 	// landing in a triggered window still open for late updates. Drop the rest so
 	// sw.data cannot grow without bound under sustained out-of-order input.
 	if timeChar == types.EventTime && sw.watermark != nil && sw.watermark.IsEventTimeLate(eventTime) {
-		switch {
-		case sw.initialized && sw.currentSlot != nil && sw.currentSlot.Contains(eventTime):
-			// watermark advanced past the window start but the window has not
-			// triggered yet; the row triggers normally, keep it.
-		case sw.config.AllowedLateness > 0:
-			placed := false
+		// watermark advanced past the window start but the window has not
+		// triggered yet: the row triggers normally with it, keep it.
+		inCurrent := sw.initialized && sw.currentSlot != nil && sw.currentSlot.Contains(eventTime)
+		// Windows overlap, so the same row may ALSO belong to triggered windows that
+		// are still open for late updates: those are emitted again with it.
+		placed := false
+		if sw.config.AllowedLateness > 0 {
 			for _, info := range sw.triggeredWindows {
 				if info.slot.Contains(eventTime) {
-					sw.handleLateData(eventTime, sw.config.AllowedLateness)
 					placed = true
 					break
 				}
 			}
-			if !placed {
-				// beyond allowed lateness with no open triggered window: drop
-				sw.dropLastRow()
+			if placed {
+				sw.handleLateData(eventTime, sw.config.AllowedLateness)
 			}
-		default:
-			// AllowedLateness == 0 (default) and not in the current window: drop
+		}
+		if !inCurrent && !placed {
+			// not in the current window and in no open triggered window (or
+			// AllowedLateness == 0, the default): drop
 			sw.dropLastRow()
 		}
 	} else if timeChar == types.EventTime && sw.currentSlot != nil && eventTime.Before(*sw.currentSlot.Start) {
@@ -893,13 +895,20 @@ func (sw *SlidingWindow) getWindowKey(endTime time.Time) string {
 
 // handleLateData handles late data that arrives within allowedLateness
 func (sw *SlidingWindow) handleLateData(eventTime time.Time, allowedLateness time.Duration) {
-	// Find which triggered window this late data belongs to
+	// Sliding windows overlap: the late event belongs to EVERY triggered window
+	// that is still open and contains it, and each of them is emitted again with
+	// the updated data (in window order). The slots are collected first because
+	// triggerLateUpdateLocked releases the lock while it delivers.
+	var slots []*types.TimeSlot
 	for _, info := range sw.triggeredWindows {
 		if info.slot.Contains(eventTime) {
-			// This late data belongs to a triggered window that's still open
-			// Trigger window again with updated data (late update)
-			sw.triggerLateUpdateLocked(info.slot)
-			return
+			slots = append(slots, info.slot)
+		}
+	}
+	sort.Slice(slots, func(i, j int) bool { return slots[i].End.Before(*slots[j].End) })
+	for _, slot := range slots {
+		if _, open := sw.triggeredWindows[sw.getWindowKey(*slot.End)]; open {
+			sw.triggerLateUpdateLocked(slot)
 		}
 	}
 }
